@@ -11,6 +11,7 @@ fn main() {
     // Rebuild if head changed to include the new git hash.
     println!("cargo:rerun-if-changed=../.git/HEAD");
     println!("cargo:rerun-if-changed=src");
+    println!("cargo:rustc-check-cfg=cfg(rustemo_verif)");
 
     if env::var("CARGO_FEATURE_BOOTSTRAP").is_ok() {
         if let Err(err) = bootstrap() {
